@@ -17,17 +17,66 @@ _STATE: dict = {}
 
 
 def _violations(prop: str, overlay: Dict[str, str]) -> Set[Tuple[str, str]]:
+    """Violations of `prop` on an overlay; like the driver, a rule that cannot be carried out
+    only matters if no other rule reports a violation."""
     ctx = Ctx(_STATE.get("root"), overlay)
     out: Set[Tuple[str, str]] = set()
+    errs = []
     for r in rules_for(prop):
-        for o in run_rule(r, ctx, prop):
-            if not o.ok:
-                out.add((o.rule, o.key))
+        try:
+            for o in run_rule(r, ctx, prop):
+                if not o.ok:
+                    out.add((o.rule, o.key))
+        except AnalysisError as e:
+            errs.append(e)
+    if errs and not (out - _STATE.get("base", set())):
+        raise errs[0]
+    return out
+
+
+class CorpusVariant:
+    """A committed diff (seeded mutant or refactoring) applied to the current source."""
+
+    def __init__(self, name: str, kind: str, path: str, expect=(), allow=()):
+        self.name = name
+        self.kind = kind
+        self.path = path
+        self.expect = set(expect)
+        self.allow = set(allow)
+
+    def overlay(self, _norm):
+        from . import patches
+        try:
+            with open(self.path, encoding="utf-8") as fh:
+                return patches.apply(_STATE["raw"], fh.read())
+        except (patches.PatchError, OSError) as e:
+            raise vmod.NotApplicable(f"{self.name}: {e}")
+
+
+def corpus() -> list:
+    import glob
+    import json
+    from .report import VERIF
+    out = []
+    for d in sorted(glob.glob(os.path.join(VERIF, "seeded", "*", "meta.json"))):
+        try:
+            with open(d, encoding="utf-8") as fh:
+                m = json.load(fh)
+        except (OSError, ValueError):
+            continue
+        target = m.get("breaks_property")
+        det = set(m.get("detected_by_checks", []))
+        if not m.get("target_property_detected"):
+            continue  # recorded as a miss: nothing to assert
+        out.append(CorpusVariant("seeded/" + m["id"], "firing", os.path.join(os.path.dirname(d), "patch.diff"),
+                                 expect={target}, allow=det - {target}))
+    for d in sorted(glob.glob(os.path.join(VERIF, "refactors", "*.diff"))):
+        out.append(CorpusVariant("refactors/" + os.path.basename(d)[:-5], "silent", d))
     return out
 
 
 def _work(i: int):
-    v = vmod.V[i]
+    v = _STATE["all"][i]
     prop = _STATE["prop"]
     try:
         ov = v.overlay(_STATE["norm"])
@@ -45,12 +94,14 @@ def _work(i: int):
 
 def run(prop: str, ctx: Ctx, seed: int, only: Optional[List[str]] = None, jobs: Optional[int] = None) -> dict:
     norm = vmod.normalise_sources(ctx.prog)
-    _STATE.update(prop=prop, norm=norm, root=ctx.prog.root)
+    raw = {rel: src for m, (rel, src, tree) in ctx.prog.modules.items()}
+    allv = list(vmod.V) + corpus()
+    _STATE.update(prop=prop, norm=norm, raw=raw, root=ctx.prog.root, all=allv)
     try:
         _STATE["base"] = _violations(prop, norm)
     except AnalysisError as e:
         return {"thorough_failures": [f"baseline on normalised source: {e}"]}
-    idx = [i for i, v in enumerate(vmod.V) if (only is None or v.name in only)]
+    idx = [i for i, v in enumerate(allv) if (only is None or v.name in only)]
     # order by seed (the battery is exhaustive; the seed only permutes it)
     if seed:
         import random
@@ -65,7 +116,7 @@ def run(prop: str, ctx: Ctx, seed: int, only: Optional[List[str]] = None, jobs: 
     fired, silent_ok, skipped, crosstalk_ok = 0, 0, 0, 0
     detail = []
     for i, status, msg, new in res:
-        v = vmod.V[i]
+        v = allv[i]
         if status == "skipped":
             skipped += 1
             detail.append({"variant": v.name, "kind": v.kind, "status": "skipped", "why": msg[:160]})
